@@ -37,6 +37,7 @@ type Interp struct {
 	sorts    map[string]bool
 	safetyN  map[string]int
 	frozenOf map[*Cell]Term
+	dbCells  map[string]*Cell
 	// configuration
 	maxPaths int
 }
